@@ -74,7 +74,7 @@ def run_harnesses(unit, scratch, harnesses, jobs=8, log=None, extra_flags=()):
         for r in recs.values():
             r["reason"] = ("wall-clock timeout" if timed_out else "kani produced no results: " + compile_err)
         return recs, {"cmd": " ".join(cmd), "wall_s": dt, "output_tail": out[-3000:], "kani": None}
-    stats = {c["harness_id"]: c.get("cbmc_stats", {}) for c in results.get("cbmc", [])}
+    stats = {c["harness_id"]: (c.get("cbmc_stats") or {}) for c in results.get("cbmc", [])}
     toolinfo = results.get("tools", {})
     for res in results.get("verification_results", {}).get("results", []):
         hid = res["harness_id"]
@@ -88,7 +88,7 @@ def run_harnesses(unit, scratch, harnesses, jobs=8, log=None, extra_flags=()):
         checks = res.get("checks", [])
         r["checks_total"] = len(checks)
         r["time_s"] = res.get("duration_ms", 0) / 1000.0
-        st = stats.get(hid, {})
+        st = stats.get(hid) or {}
         r["solver_s"] = st.get("runtime_decision_procedure_s", 0.0) or 0.0
         failed = [c for c in checks if c.get("status") == "Failure"]
         undet = [c for c in checks if c.get("status") == "Undetermined"]
